@@ -155,6 +155,27 @@ def plan(tier, seed):
             cfg['x0'] = [6e-3]
             cfg['max_steps'] = 120 if tier == 'quick' else 250
         cases.append({'kind': 'pair', 'cfg': cfg, 'weight': 4e5})
+    # re-specification on one parameter object: a constant temperature given to a model that previously held a
+    # non-isothermal schedule must be treated exactly like the same constant given to a fresh model
+    # (added after seeded change C13-c: a stale isothermal/non-isothermal classification)
+    for i in range(3 if tier == 'quick' else 18):
+        rng = core.case_rng(seed, PROPERTY, 4000 + i)
+        system = ['alzr', 'nialcr', 'alzr'][i % 3]
+        cfg = precip.default_cfg(system)
+        cfg['iterator'] = ['euler', 'rk4'][i % 2]
+        cfg['constraints'] = {'dtScale': 0.3}
+        if system == 'alzr':
+            cfg['x0'] = [float(rng.uniform(4e-3, 6e-3))]
+            cfg['schedule'] = {'kind': 'iso', 'T': float(rng.uniform(730, 780))}
+            cfg['segments'] = [float(np.exp(rng.uniform(np.log(5e2), np.log(2e4))))]
+            cfg['pbm'] = {'cMin': 1e-10, 'cMax': 5e-9, 'bins': 40, 'minBins': 30, 'maxBins': 60, 'adaptive': True}
+        else:
+            cfg['x0'] = [0.11, 0.08]
+            cfg['schedule'] = {'kind': 'iso', 'T': float(rng.uniform(1030, 1080))}
+            cfg['segments'] = [float(rng.uniform(5, 50))]
+        cfg['max_steps'] = 250 if tier == 'quick' else 600
+        cases.append({'kind': 'respec', 'cfg': cfg, 'previous': ['array', 'function', 'array'][i % 3],
+                      'via': ['setter', 'ctor', 'setter'][(i // 3 + i) % 3], 'weight': 3e5})
     for i in range(N_DIFF[tier]):
         cases.append({'kind': 'diffusion', 'variant': i, 'weight': 5e4})
     return cases
@@ -207,6 +228,8 @@ def run_case(case, R):
                        'builds': len([b for b in run.table_builds if b['full']]), 'via': case['via']})
         R.set_nontrivial(span >= 5 * lim and run.steps >= 20)
         return
+    if case['kind'] == 'respec':
+        return _run_respec(case, R)
     # ---- triples of equivalent specifications
     runs = {}
     for via in ('setter', 'ctor', 'setter_function'):
@@ -225,6 +248,59 @@ def run_case(case, R):
     T = np.asarray(pd.temperature)
     active = bool(np.any((np.sum(pd.nucRate, axis=1) > 0) & (T != T[0])))
     R.info.update({'steps': runs['setter'].steps, 'nucleating_while_T_changed': active, 'system': cfg['system']})
+    R.set_nontrivial(active)
+
+
+class _Respecify:
+    """on_build hook: give the model a non-isothermal schedule first, then the constant through a public way"""
+
+    def __init__(self, previous, how, T):
+        self.previous, self.how, self.T = previous, how, T
+
+    def on_build(self, run, model):
+        T = self.T
+        if self.previous == 'array':
+            model.setTemperature([0.0, 1.0], [T - 40.0, T + 40.0])
+        else:
+            model.setTemperature(lambda t: T + 1e-3 * t)
+        if self.how == 'model_setter':
+            model.setTemperature(T)
+        elif self.how == 'parameters_setter':
+            model.temperatureParameters.setTemperatureParameters(T)
+        else:
+            model.temperatureParameters.setIsothermalTemperature(T)
+
+    def on_step(self, *a):
+        pass
+
+    def on_exception(self, *a):
+        pass
+
+    def on_solve_return(self, *a):
+        pass
+
+
+def _run_respec(case, R):
+    from vlib.precip_run import TrajectoryRun
+    cfg = case['cfg']
+    T = cfg['schedule']['T']
+    fresh = TrajectoryRun(cfg, R, [], max_steps=cfg['max_steps'], temperature_via=case['via']).execute()
+    if fresh.rejected or R.inconclusive:
+        return
+    active = False
+    for how in ('model_setter', 'parameters_setter', 'isothermal_setter'):
+        reused = TrajectoryRun(cfg, R, [_Respecify(case['previous'], how, T)], max_steps=cfg['max_steps'], temperature_via=case['via']).execute()
+        if (fresh.error is None) != (reused.error is None):
+            R.check('c13.equivalent_runs', False, {'pair': 'fresh_vs_respecified', 'system': cfg['system'], 'schedule': 'iso', 'how': how,
+                                                   'previous': case['previous']}, errors=[repr(fresh.error)[:100], repr(reused.error)[:100]])
+            continue
+        if fresh.error is not None:
+            R.observe('runs_ended_by_exception')
+            continue
+        _compare_runs(R, fresh, reused, 'fresh_vs_respecified:' + how, cfg)
+    pd = fresh.model.pData
+    active = bool(np.any(np.sum(pd.nucRate, axis=1) > 0))
+    R.info.update({'steps': fresh.steps, 'nucleating': active, 'system': cfg['system'], 'previous': case['previous']})
     R.set_nontrivial(active)
 
 
